@@ -71,10 +71,14 @@ type chunkConn struct {
 	faultAt int   // stream offset at which Read fails (len(stream) = clean end)
 	fault   error
 	reads   int
+	onRead  func(nth int) // called at the start of every Read (nth = 1, 2, …); may block
 }
 
 func (c *chunkConn) Read(p []byte) (int, error) {
 	c.reads++
+	if c.onRead != nil {
+		c.onRead(c.reads)
+	}
 	if c.pos >= c.faultAt {
 		return 0, c.fault
 	}
@@ -100,9 +104,10 @@ func (c *chunkConn) Size() int                  { return 0 }
 
 var errInjected = errors.New("verifmon: injected connection failure")
 
-func codecs() map[string]codec.Codec {
-	return map[string]codec.Codec{"CMPPCodec": codec.NewCMPPCodec(), "SMPPCodec": codec.NewSMPPCodec()}
-}
+// one codec value per process, shared by every stream of every case — the way applications use them
+var sharedCodecs = map[string]codec.Codec{"CMPPCodec": codec.NewCMPPCodec(), "SMPPCodec": codec.NewSMPPCodec()}
+
+func codecs() map[string]codec.Codec { return sharedCodecs }
 
 // genFrames builds 1..maxN frames; small=true keeps the stream short for exhaustive schedules.
 func genFrames(r *fw.Rng, maxN int, small bool) [][]byte {
@@ -376,6 +381,107 @@ func init() {
 							at = c.R.Intn(len(stream) + 1)
 						}
 						runBlocking(c, name, cd, stream, ends, cuts, at, faults[c.R.Intn(3)], "random")
+					})
+				},
+			},
+			{
+				// one codec value serving several connections, as a server does: extraction on one stream must not be
+				// disturbed by extraction on another stream that happens in between
+				Name: "sharedcodec", N: q(6000, 200000),
+				Run: func(c *fw.Case) {
+					r := c.R
+					each(func(name string, cd codec.Codec) {
+						// (a) non-blocking: two streams fed alternately, one Decode call at a time, same codec
+						sa, _ := concat(genFrames(r, 4, r.Bool()))
+						sb, _ := concat(genFrames(r, 4, r.Bool()))
+						ca, cb := &feedConn{}, &feedConn{}
+						streams := [2][]byte{sa, sb}
+						conns := [2]*feedConn{ca, cb}
+						fed, cur := [2]int{}, [2]int{}
+						for fed[0] < len(sa) || fed[1] < len(sb) {
+							k := r.Intn(2)
+							if fed[k] >= len(streams[k]) {
+								k = 1 - k
+							}
+							n := r.Pick(1, 2, 3, 4, 5, 8, 16, 64, 4096)
+							if fed[k]+n > len(streams[k]) {
+								n = len(streams[k]) - fed[k]
+							}
+							conns[k].feed(streams[k][fed[k] : fed[k]+n])
+							fed[k] += n
+							for iter := 0; iter < 64; iter++ {
+								var frame []byte
+								var err error
+								if p, val, st := fw.Try(func() { frame, err = cd.Decode(conns[k]) }); p {
+									c.Failf("shared-"+fw.PanicSig(val, st)+"/"+name, "Decode panicked: %v\n%s", val, st)
+									return
+								}
+								c.Evals(1)
+								avail := fed[k] - cur[k]
+								complete := avail >= 4 && int(binary.BigEndian.Uint32(streams[k][cur[k]:])) <= avail
+								if !complete {
+									if !errors.Is(err, codec.ErrPacketNotComplete) {
+										c.Failf("shared-nonblocking-incomplete/"+name, "stream %d: %d octets buffered, frame incomplete, but Decode returned frame=%v err=%v (two streams share one codec)", k, avail, frame != nil, err)
+										return
+									}
+									break
+								}
+								L := int(binary.BigEndian.Uint32(streams[k][cur[k]:]))
+								if err != nil || !bytes.Equal(frame, streams[k][cur[k]:cur[k]+L]) {
+									c.Failf("shared-nonblocking-wrong-frame/"+name, "stream %d (two streams share one codec): Decode returned (%s, %v), expected frame %s", k, hx(frame), err, hx(streams[k][cur[k]:cur[k]+L]))
+									return
+								}
+								cur[k] += L
+							}
+						}
+						c.Cover("sharedcodec/" + name + "/nonblocking")
+						// (b) blocking: stream A has delivered its prefix and waits for its body while stream B is extracted completely
+						fa := genFrames(r, 1, true)[0]
+						fbs := genFrames(r, 3, true)
+						if len(fbs[0]) == len(fa) {
+							fbs[0] = append(fbs[0], 0xAB)
+							binary.BigEndian.PutUint32(fbs[0], uint32(len(fbs[0])))
+						}
+						sB, endsB := concat(fbs)
+						atBody := make(chan struct{})
+						goOn := make(chan struct{})
+						connA := &chunkConn{stream: fa, cuts: []int{4}, faultAt: len(fa), fault: io.EOF}
+						connA.onRead = func(nth int) {
+							if nth == 2 { // the read that follows the 4-octet prefix
+								close(atBody)
+								<-goOn
+							}
+						}
+						type res struct {
+							frame []byte
+							err   error
+							pan   string
+						}
+						done := make(chan res, 1)
+						go func() {
+							var rr res
+							if p, val, st := fw.Try(func() { rr.frame, rr.err = cd.DecodeBlocked(connA) }); p {
+								rr.pan = fmt.Sprintf("%v\n%s", val, st)
+							}
+							done <- rr
+						}()
+						if len(fa) > 4 {
+							<-atBody
+						}
+						runBlocking(c, name, cd, sB, endsB, nil, len(sB), io.EOF, "shared-codec-other-stream")
+						if len(fa) > 4 {
+							close(goOn)
+						}
+						ra := <-done
+						c.Evals(1)
+						switch {
+						case ra.pan != "":
+							c.Failf("shared-blocking-panic/"+name, "%s", ra.pan)
+						case ra.err != nil || !bytes.Equal(ra.frame, fa):
+							c.Failf("shared-blocking-wrong-frame/"+name, "stream A's frame %s was extracted as (%s, %v) while another stream was served by the same codec value between A's prefix and body", hx(fa), hx(ra.frame), ra.err)
+						default:
+							c.Cover("sharedcodec/" + name + "/blocking-interleaved")
+						}
 					})
 				},
 			},
